@@ -564,6 +564,10 @@ def flat_pair(rng, ka, kb):
 
 
 def flat_vs_body(rng, kf, kb, small=False):
+    if rng.random() < 0.04:
+        x = slab_flat_vs_body(rng, kf, kb)
+        if x is not None:
+            return x, "minus1-minus2-slab"
     body = rand_obj(rng, kb, small)
     r = rng.random()
     if r < 0.75:
@@ -693,6 +697,8 @@ def int_rect(rng, lo=-3, hi=2):
 def body_pair(rng, ka, kb, small=True):
     """two convex bodies (PG/PH) in a labelled relative position"""
     r = rng.random()
+    if ka == "PH" and kb == "PH" and rng.random() < 0.04:
+        return slab_box_pair(rng), "common-part-is-the-minus1-minus2-slab-cube"
     if rng.random() < 0.12:
         mk = lambda k: int_box(rng) if k == "PH" else int_rect(rng)
         return (mk(ka), mk(kb)), "small-integer-boxes"
@@ -847,3 +853,119 @@ def gen_pair(rng, ka, kb, small=True):
             (a, b), lab = body_pair(rng, ka, kb, small)
         return (a, b), lab
     return body_pair(rng, ka, kb, small)
+
+
+# --------------------------------------------------------------------------
+# the "-1 / -2 slab" family.  CPython hashes -1 and -2 (ints and floats) alike; Point / Vector / Plane / polygon hashes
+# are tuples of rounded numbers, so two *different* objects collide when they agree everywhere except that one has -1
+# where the other has -2, all other coordinates of the points concerned being 0 or 1 (so that the coordinate products in
+# the hash collide too).  Anything keyed by hash() instead of by == goes wrong exactly there.  The helpers below put
+# vertices, hit points, faces and results of valid objects into that position on purpose.
+
+def slab_pt(c, t, u, w):
+    """point with coordinate t on axis c and (u, w) on the two other axes (cyclic order)"""
+    p = [None, None, None]
+    p[c] = F(t)
+    p[(c + 1) % 3] = F(u)
+    p[(c + 2) % 3] = F(w)
+    return tuple(p)
+
+
+def slab_body(rng, c=None, lo=-2, hi=-1, wide=False):
+    """(axis, body): the unit cube or a prism over a {0,1}^2 polygon between the planes x_c = lo and x_c = hi"""
+    c = rng.randrange(3) if c is None else c
+    base = rng.choice(([(0, 0), (1, 0), (1, 1), (0, 1)], [(0, 0), (1, 0), (1, 1), (0, 1)], [(0, 0), (1, 0), (0, 1)],
+                       [(1, 0), (1, 1), (0, 1)], [(0, 0), (1, 1), (0, 1)]))
+    if wide:
+        # a wider cross-section: the points (u, w) in {0,1}^2 are interior or boundary points of it
+        u0, u1, w0, w1 = rng.choice((-1, 0)), rng.choice((1, 2)), rng.choice((-1, 0)), rng.choice((1, 2))
+        base = [(u0, w0), (u1, w0), (u1, w1), (u0, w1)]
+    pts = [slab_pt(c, t, u, w) for t in (lo, hi) for (u, w) in base]
+    return c, K.hull3d(pts)
+
+
+def slab_polygon(rng, c=None):
+    """(axis, w, polygon): a quadrilateral in the plane x_(c+2) = w with one edge on the line x_c = -2 and one on
+    x_c = -1, both covering u in [0, 1]"""
+    c = rng.randrange(3) if c is None else c
+    w = rng.choice((0, 1))
+    a0, a1 = rng.choice((-2, -1, 0)), rng.choice((-2, -1, 0))
+    b0, b1 = rng.choice((1, 2)), rng.choice((1, 2))
+    vs = [slab_pt(c, -2, a0, w), slab_pt(c, -1, a1, w), slab_pt(c, -1, b1, w), slab_pt(c, -2, b0, w)]
+    return c, w, ("PG", tuple(vs))
+
+
+def slab_flat_vs_body(rng, kf, kb):
+    """a flat object and a polygon / polyhedron whose common part has its ends (or vertices) at x_c = -2 and x_c = -1
+    with the other coordinates in {0, 1}"""
+    if kb == "PH":
+        c, body = slab_body(rng, wide=rng.random() < 0.6)
+        u, w = rng.choice((0, 1)), rng.choice((0, 1))
+        if rng.random() < 0.3:
+            u = F(1, 2) if rng.random() < 0.5 else u
+    else:
+        c, w, body = slab_polygon(rng)
+        u = rng.choice((0, 1))
+    p, q = slab_pt(c, -2, u, w), slab_pt(c, -1, u, w)
+    e = sub(q, p)
+    if body is None:
+        return None
+    if kf == "P":
+        return ("P", rng.choice((p, q))), body
+    if kf == "L":
+        return ("L", add(p, mul(e, rng.randint(-2, 3))), mul(e, rng.choice((1, -1, 2)))), body
+    if kf == "H":
+        s = rng.choice((-1, 1))
+        start = sub(p, mul(e, rng.randint(0, 2))) if s == 1 else add(q, mul(e, rng.randint(0, 2)))
+        return ("H", start, mul(e, s)), body
+    if kf == "S":
+        return ("S", sub(p, mul(e, rng.randint(0, 1))), add(q, mul(e, rng.randint(0, 1)))), body
+    if kf == "PL":
+        if kb == "PH" and rng.random() < 0.5:
+            n = [F(0)] * 3
+            n[(c + 1) % 3] = F(1)
+            return ("PL", slab_pt(c, 0, u if u in (0, 1) else 0, 0), tuple(n)), body       # cuts along the axis: section through (-2,u,.) and (-1,u,.)
+        n = [F(0)] * 3
+        n[(c + 1) % 3] = F(1)
+        return ("PL", slab_pt(c, 0, u, 0), tuple(n)), body
+    return None
+
+
+def slab_box_pair(rng):
+    """two axis-aligned integer boxes whose common part is exactly the unit cube between x_c = -2 and x_c = -1 over
+    [0,1]^2 (a result with two faces that hash alike)"""
+    c = rng.randrange(3)
+    rngs = {c: (-2, -1), (c + 1) % 3: (0, 1), (c + 2) % 3: (0, 1)}
+    A, B = [None] * 3, [None] * 3
+    for ax in range(3):
+        lo, hi = rngs[ax]
+        ea, eb = rng.choice(((0, rng.randint(0, 2)), (rng.randint(0, 2), 0)))
+        fa, fb = rng.choice(((0, rng.randint(0, 2)), (rng.randint(0, 2), 0)))
+        A[ax] = (F(lo - ea), F(hi + fa))
+        B[ax] = (F(lo - eb), F(hi + fb))
+    mk = lambda R: K.hull3d([(R[0][i], R[1][j], R[2][k]) for i in (0, 1) for j in (0, 1) for k in (0, 1)])
+    return mk(A), mk(B)
+
+
+def slab_twins(rng, kind):
+    """two different valid objects of one kind that agree everywhere except for one coordinate -1 against -2"""
+    c = rng.randrange(3)
+    if kind == "PG":
+        w = rng.choice((0, 1))
+        u = rng.choice((0, 1))
+        far = rng.randint(2, 4)
+        rest = [slab_pt(c, far, u - 1, w), slab_pt(c, far, u + 1, w)]
+        if rng.random() < 0.5:
+            rest = [slab_pt(c, far, u - 1, w), slab_pt(c, far + 1, u, w), slab_pt(c, far, u + 1, w)]
+        return tuple(("PG", tuple([slab_pt(c, t, u, w)] + rest)) for t in (-1, -2))
+    if kind == "PH":
+        far = rng.randint(1, 3)
+        out = []
+        for t in (-1, -2):
+            out.append(K.hull3d([slab_pt(c, x, u, w) for x in (t, far) for u in (0, 1) for w in (0, 1)]))
+        return tuple(out)
+    if kind == "S":
+        u, w = rng.choice((0, 1)), rng.choice((0, 1))
+        q = slab_pt(c, rng.randint(1, 3), rng.randint(-2, 2), rng.randint(-2, 2))
+        return tuple(("S", slab_pt(c, t, u, w), q) for t in (-1, -2))
+    raise ValueError(kind)
